@@ -76,17 +76,16 @@ def evalLets (convert : Bool) (o : Oracles) (ctx : Ctx) : List (String × PExpr)
     | .val v => evalLets convert o ctx rest (setKV n v vars)
 
 /-- `str(x).strip().lower()` -/
-def tagOf (o : Oracles) (v : Val) : Except Err String :=
-  match (do let s ← pyStr o v; pyLower o (pyStrip s) : M String) [] with
-  | (.ok s, _) => .ok s
-  | (.error e, _) => .error e
+def tagOf (o : Oracles) (v : Val) : Except Err String := do
+  let s ← pyStr o v
+  pyLower o (pyStrip s)
 
 /-- `_resolve_tags` (set semantics are applied by the rule-list algorithm; here: the list of values) -/
 def resolveTags (convert : Bool) (o : Oracles) (ctx : Ctx) : List TagSpec → Except Err (List String)
   | [] => .ok []
   | .blank :: rest => resolveTags convert o ctx rest
   | .static t :: rest => do
-    let l ← (match (pyLower o t : M String) [] with | (r, _) => r)
+    let l ← pyLower o t
     let more ← resolveTags convert o ctx rest
     pure (l :: more)
   | .dynamic e :: rest =>
